@@ -114,6 +114,7 @@ class Ctx:
         self.nodes = {int(k): v for k, v in rec["nodes"].items()}
         self.tol_mode = tol_mode
         self.cache = {}
+        self.defs = {}        # id -> (sort, body): shared subterms are NAMED (define-fun), never expanded inline
         self.uf_apps = {}     # id -> (kind, args)
         self.consts = {}
         self.lemmas = {}      # floor/ceil/round node id -> proven constant value (SMT text)
@@ -171,6 +172,12 @@ class Ctx:
             self.uf_apps[i] = (k, n[1:], args)
         else:
             raise ValueError("unknown node kind " + k)
+        # the expression is a DAG with heavy sharing (Halley steps, matrix products): a long text is given a name so
+        # that the SMT file stays linear in the size of the DAG instead of exponential in its depth
+        if len(s) > 160 and k not in ("var", "const", "pi", "true", "false", "tol") and k not in UF:
+            sort = "Bool" if k in ("lt", "le", "eq", "and", "or", "not") else "Real"
+            self.defs[i] = (sort, s)
+            s = "d%d" % i
         self.cache[i] = s
         return s
 
@@ -491,6 +498,8 @@ class Ctx:
         for name, vid, lo, hi in self.rec["vars"]:
             lines.append("(declare-const %s Real)" % self.t(vid))
         lines += decl
+        for di, (sort, body) in self.defs.items():
+            lines.append("(define-fun d%d () %s %s)" % (di, sort, body))
         for p in pre: lines.append("(assert %s)" % p)
         for a in ax: lines.append("(assert %s)" % a)
         if goal_smt is not None:
@@ -731,7 +740,7 @@ def _check_path(prop, prog, meta, rec, timeout):
             vv, sv, dtv, outv, qp = solve(ctx.query(cell), timeout=min(timeout, 5), tag=base + ".lemma.n%d.k%d" % (i, kk))
             if vv == "unsat":
                 ctx.lemmas[i] = rat(F(kk))
-                ctx.cache = {}; ctx.uf_apps = {}
+                ctx.cache = {}; ctx.defs = {}; ctx.uf_apps = {}
                 for r in roots: ctx.t(r)
                 for c in rec["assumes"]: ctx.t(c)
                 lemma_notes.append("n%d:%s=%d" % (i, n[0], kk))
